@@ -26,6 +26,7 @@ import (
 	"sort"
 	"strings"
 	"sync"
+	"sync/atomic"
 	"time"
 
 	"github.com/DOSNetwork/core/onchain"
@@ -416,7 +417,21 @@ func (l *hlog) raw(st *chaindouble.Stack, removed bool) types.Log {
 		TxHash: common.BigToHash(big.NewInt(l.tx)), TxIndex: 0, BlockHash: bh, Index: l.index, Removed: removed}
 }
 
+// stalledSubs counts full-stack cases in which a subscription never became live or the end markers never came
+// (a broken binding / table does that to every such case, each costing a long timeout): after three, the
+// remaining ones of the run are not executed.
+var stalledSubs int32
+
 func execSub(w []string) (res h.Result) {
+	if atomic.LoadInt32(&stalledSubs) >= 3 {
+		res.Impl, res.Class = "not-run", "sub-not-run"
+		return
+	}
+	defer func() {
+		if strings.HasPrefix(res.Oracle, "harness-subscribe-failed") || strings.HasPrefix(res.Oracle, "delivery-stalled") {
+			atomic.AddInt32(&stalledSubs, 1)
+		}
+	}()
 	nws := h.Atoi(w[1])
 	var typesL []int
 	for _, t := range strings.Split(w[2], ",") {
